@@ -119,8 +119,11 @@ def _calls():
     add("align/align_origin (reference)", f_align)
 
     def f_assoc(a, b, W):
-        sync.associate_trajectories(a, b, 0.25)
-        sync.associate_trajectories(b, a, 0.25, offset_2=0.125)
+        out = sync.associate_trajectories(a, b, 0.25)
+        out2 = sync.associate_trajectories(b, a, 0.25, offset_2=0.125)
+        mutate_output([out, out2])
+        assert not W.changed(), ("mutating associated trajectories changed "
+                                 "%s" % W.changed())
         s1, s2 = W(a.timestamps.copy()), W(b.timestamps.copy())
         sync.matching_time_indices(s1, s2, 0.25, 0.5)
         sync.matching_time_indices(s2, s1, 0.25, -0.5)
@@ -140,25 +143,39 @@ def _calls():
     add("id_pairs_from_delta/filters", f_pairs)
 
     def f_split(a, b, W):
-        a.split_distance_gaps(2.0)
+        parts = list(a.split_distance_gaps(2.0))
         a.split_distance_gaps(100.0)
         if hasattr(a, "timestamps"):
-            a.split_time_gaps(1.0)
-            a.split_speed_outliers(1.8)
+            parts += list(a.split_time_gaps(1.0))
+            parts += list(a.split_speed_outliers(1.8))
             a.speeds, a.get_statistics()
+        mutate_output([p for p in parts if p is not a])
+        assert not W.changed(), ("mutating split parts changed %s" %
+                                 W.changed())
         a.distances, a.path_length, a.get_infos(), a.check(), str(a)
         a == b
         a.get_orientations_euler()
     add("splits/derived quantities/==", f_split)
 
     def f_merge(a, b, W):
-        trajectory.merge([a, b])
+        m = trajectory.merge([a, b])
+        m1 = trajectory.merge([a])
+        mutate_output([m, m1])
+        assert not W.changed(), ("mutating a merged trajectory changed %s" %
+                                 W.changed())
     add("trajectory.merge", f_merge, True)
 
     def f_df(a, b, W):
         df = W(pandas_bridge.trajectory_to_df(a), "DataFrame")
-        pandas_bridge.df_to_trajectory(df)
+        t2 = pandas_bridge.df_to_trajectory(df)
         pandas_bridge.trajectory_stats_to_df(a)
+        mutate_output(t2)
+        assert not W.changed(), ("mutating a trajectory made from a "
+                                 "DataFrame changed %s" % W.changed())
+        W.items.pop()
+        mutate_output(df)
+        assert not W.changed(), ("mutating the DataFrame of a trajectory "
+                                 "changed %s" % W.changed())
     add("pandas_bridge", f_df)
 
     def f_umeyama(a, b, W):
@@ -173,14 +190,20 @@ def _calls():
             m = metrics.APE(metrics.PoseRelation.translation_part)
             m.process_data((a, b))
             r = m.get_result()
-            r.add_trajectory("ref", a)
+            r.add_trajectory("ref", copy.deepcopy(a))
+            r.add_trajectory("est", copy.deepcopy(b))
             r.add_np_array("extra", np.arange(3.0) + k)
             rs.append(r)
         W(rs, "list of results")
-        result.merge_results(rs)
-        result.merge_results(rs[:2])
+        m1 = result.merge_results(rs)
+        m2 = result.merge_results(rs[:2])
         pandas_bridge.result_to_df(rs[0])
         assert not W.changed(), "merge_results (average) modified an input"
+        # a merged result is a derived object: operating on it (or on the
+        # trajectories it carries) must not reach the inputs
+        mutate_output([m1, m2])
+        assert not W.changed(), ("mutating a merged result changed its "
+                                 "inputs: %s" % W.changed())
         W.items.pop()
         rs[1].np_arrays["extra"] = np.arange(5.0)
         W(rs, "list of results (append strategy)")
@@ -259,6 +282,50 @@ def shard_purity(arg):
                 else:
                     acc.sample(case)
     return acc
+
+
+def mutate_output(o):
+    """in-place operations on a derived object (any of them must leave the
+    objects it was derived from untouched)"""
+    from evo.core.trajectory import PosePath3D, Plane
+    from evo.core.result import Result
+    import pandas as pd
+    if isinstance(o, PosePath3D):
+        o.transform(T_SE3.copy())
+        o.scale(2.0)
+        for name in ("_positions_xyz", "_orientations_quat_wxyz",
+                     "timestamps"):
+            a = getattr(o, name, None)
+            if isinstance(a, np.ndarray) and a.flags.writeable and a.size:
+                a += 1.0
+        for P in o.poses_se3:
+            if isinstance(P, np.ndarray) and P.flags.writeable:
+                P[0, 3] += 5.0
+        try:
+            o.project(Plane.XY)
+        except Exception:
+            pass
+        if o.num_poses > 1:
+            o.reduce_to_ids([0])
+    elif isinstance(o, Result):
+        for t in list(o.trajectories.values()):
+            mutate_output(t)
+        o.trajectories.clear()
+        for k, a in list(o.np_arrays.items()):
+            if isinstance(a, np.ndarray) and a.flags.writeable and a.size \
+                    and a.dtype.kind == "f":
+                a += 1.0
+        o.np_arrays["added"] = np.zeros(2)
+        o.stats["added"] = 1.0
+        o.info["added"] = "x"
+    elif isinstance(o, np.ndarray):
+        if o.flags.writeable and o.size and o.dtype.kind == "f":
+            o += 1.0
+    elif isinstance(o, pd.DataFrame):
+        o.iloc[:, :] = 0.0
+    elif isinstance(o, (list, tuple)):
+        for x in o:
+            mutate_output(x)
 
 
 class Watch(object):
